@@ -1,13 +1,28 @@
 /-
-  Certificate obligations, part 5 of 8 of the `patched` client system (kernel evaluation; one module per
-  part so that lake checks them in parallel). Assembled in `Lemmas/CliCert.lean`.
+  Certificate obligations, parts 40..47 of 64 of the `patched` client system (kernel evaluation; 8 modules
+  so that lake checks them in parallel; small parts keep the kernel's memory small).
+  Assembled in `Lemmas/CliCert.lean`.
 -/
 import KmipModel.Model.CliConn
 import KmipModel.Gen.CertCliConn
 namespace Kmip.CliCert
 open Kmip.CliLts Kmip.CliConn Kmip.Gen.CertCliConn
 
-theorem paClosed5 : partClosed (sys patched) codec certPatched paP5 = true := by decide +kernel
-theorem paSafe5 : partSafe codec (badFull patched) paP5 = true := by decide +kernel
+theorem paClosed40 : partClosed (sys patched) codec certPatched paP40 = true := by decide +kernel
+theorem paSafe40 : partSafe codec (badFull patched) paP40 = true := by decide +kernel
+theorem paClosed41 : partClosed (sys patched) codec certPatched paP41 = true := by decide +kernel
+theorem paSafe41 : partSafe codec (badFull patched) paP41 = true := by decide +kernel
+theorem paClosed42 : partClosed (sys patched) codec certPatched paP42 = true := by decide +kernel
+theorem paSafe42 : partSafe codec (badFull patched) paP42 = true := by decide +kernel
+theorem paClosed43 : partClosed (sys patched) codec certPatched paP43 = true := by decide +kernel
+theorem paSafe43 : partSafe codec (badFull patched) paP43 = true := by decide +kernel
+theorem paClosed44 : partClosed (sys patched) codec certPatched paP44 = true := by decide +kernel
+theorem paSafe44 : partSafe codec (badFull patched) paP44 = true := by decide +kernel
+theorem paClosed45 : partClosed (sys patched) codec certPatched paP45 = true := by decide +kernel
+theorem paSafe45 : partSafe codec (badFull patched) paP45 = true := by decide +kernel
+theorem paClosed46 : partClosed (sys patched) codec certPatched paP46 = true := by decide +kernel
+theorem paSafe46 : partSafe codec (badFull patched) paP46 = true := by decide +kernel
+theorem paClosed47 : partClosed (sys patched) codec certPatched paP47 = true := by decide +kernel
+theorem paSafe47 : partSafe codec (badFull patched) paP47 = true := by decide +kernel
 
 end Kmip.CliCert
